@@ -55,6 +55,9 @@ def main(argv=None) -> int:
                 hits.append((fd, k))
             else:
                 new.append(fd)
+        ctx.check_floors(bool(new))
+        for ff in ctx.floor_failures:
+            print(f"NOTE: {ff}")
         audit = None
         if args.tier == "thorough" and replay is None and not args.repo:
             # the audits never decide the exit code: it is decided by the rules on the real tree only
